@@ -301,6 +301,9 @@ func runCase(c Case) (string, stats) {
 	st.plainLen = len(want)
 	// --- oracle 2: boundary independence ---
 	cb := kit.NewMemConn()
+	if len(want) < 100000 {
+		cb.MaxRead = []int{0, 1, 3, 0, 7}[len(want)%5] // the re-cut frames additionally trickle in a few bytes per Read
+	}
 	B := stream.NewStream(cb)
 	var hs *kit.RefDir
 	if err := keyed(B); err != nil {
